@@ -3,6 +3,7 @@ package main
 import (
 	"fmt"
 	"go/constant"
+	"go/token"
 	"go/types"
 	"sort"
 	"strconv"
@@ -1042,6 +1043,48 @@ func (g *FnGen) finish() {
 	if g.C != nil && (len(g.C.ReturnAsserts) > 0 || len(g.C.MustCall) > 0) {
 		g.checkReturnAsserts()
 	}
+	if g.C != nil && len(g.C.ErrFrom) > 0 {
+		// "errors-from X Y": every error this function returns was handed to it by a call of X or
+		// Y (possibly passed on wrapped): it has no failure of its own and reports no other callee's.
+		allowed := map[string]bool{}
+		for _, n := range g.C.ErrFrom {
+			allowed[n] = true
+		}
+		for k, r := range g.rets {
+			ret, ok := r.block.Instrs[r.idx].(*ssa.Return)
+			if !ok {
+				continue
+			}
+			for i, res := range ret.Results {
+				if types.TypeString(res.Type(), nil) != "error" {
+					continue
+				}
+				for _, src := range errorSources(res, r.block, 0) {
+					if !allowed[src] {
+						g.oblige("assert", fmt.Sprintf("return:error-from:%s#%d@ret%d", src, i, k+1), r.guard, "false", "the contract says every error returned here comes from "+strings.Join(g.C.ErrFrom, " / ")+"; this one comes from "+src, r.pos)
+					}
+				}
+			}
+		}
+	}
+	if g.C != nil && g.C.Forbids["own-error-values"] {
+		// "forbids own-error-values": every error this function returns is one a callee handed to
+		// it -- never a package-level error value or an error value it constructs itself.
+		for k, r := range g.rets {
+			ret, ok := r.block.Instrs[r.idx].(*ssa.Return)
+			if !ok {
+				continue
+			}
+			for i, res := range ret.Results {
+				if types.TypeString(res.Type(), nil) != "error" {
+					continue
+				}
+				if ownErrorValue(res, r.block, 0) {
+					g.oblige("assert", fmt.Sprintf("return:own-error-value#%d@ret%d", i, k+1), r.guard, "false", "the contract forbids returning an error value of the function's own (a package-level error or one constructed here): every failure it reports is a callee's", r.pos)
+				}
+			}
+		}
+	}
 	g.checkInterfaceConformance()
 	if g.C == nil || len(g.C.Ensures) == 0 || len(g.rets) == 0 {
 		return
@@ -1575,4 +1618,142 @@ func wrapsAnError(c *ssa.CallCommon) bool {
 func isNilConst(v ssa.Value) bool {
 	k, ok := v.(*ssa.Const)
 	return ok && k.Value == nil
+}
+
+// ownErrorValue reports whether an error-typed value is (on some path) not a callee's: a load of
+// a package-level variable, or an error value built in this function.
+func ownErrorValue(v ssa.Value, blk *ssa.BasicBlock, depth int) bool {
+	if depth > 6 {
+		return false
+	}
+	switch x := v.(type) {
+	case *ssa.UnOp:
+		if x.Op != token.MUL {
+			return false
+		}
+		if _, isGlobal := x.X.(*ssa.Global); isGlobal {
+			return true
+		}
+		if al, isAlloc := x.X.(*ssa.Alloc); isAlloc && !al.Heap {
+			// result spilled around rundefers: the value stored last in this block
+			var last ssa.Value
+			for _, in := range blk.Instrs {
+				if st, ok := in.(*ssa.Store); ok && st.Addr == al {
+					last = st.Val
+				}
+				if in == ssa.Instruction(x) {
+					break
+				}
+			}
+			if last != nil {
+				return ownErrorValue(last, blk, depth+1)
+			}
+		}
+		return false
+	case *ssa.MakeInterface:
+		return true
+	case *ssa.ChangeInterface:
+		return ownErrorValue(x.X, blk, depth+1)
+	case *ssa.Phi:
+		for _, e := range x.Edges {
+			if ownErrorValue(e, blk, depth+1) {
+				return true
+			}
+		}
+	}
+	return false
+}
+
+// errorSources lists where an error-typed value may come from: "call:<callee>" is reported as the
+// bare callee name, plus "package-level-value", "constructed-here", "parameter", "unknown". A call
+// that merely wraps an error value (fmt.Errorf("...%w", err)) is looked through.
+func errorSources(v ssa.Value, blk *ssa.BasicBlock, depth int) []string {
+	if depth > 8 {
+		return []string{"unknown"}
+	}
+	switch x := v.(type) {
+	case *ssa.Const:
+		return nil
+	case *ssa.Parameter:
+		return []string{"parameter"}
+	case *ssa.Extract:
+		return errorSources(x.Tuple, blk, depth+1)
+	case *ssa.Call:
+		c := x.Common()
+		if wrapsAnError(c) {
+			var out []string
+			for _, a := range c.Args {
+				out = append(out, wrappedSources(a, blk, depth+1)...)
+			}
+			if len(out) > 0 {
+				return out
+			}
+		}
+		n := calleeName(c)
+		if n == "" {
+			n = "dynamic"
+		}
+		return []string{n}
+	case *ssa.UnOp:
+		if x.Op != token.MUL {
+			return []string{"unknown"}
+		}
+		if _, isGlobal := x.X.(*ssa.Global); isGlobal {
+			return []string{"package-level-value"}
+		}
+		if al, isAlloc := x.X.(*ssa.Alloc); isAlloc {
+			var out []string
+			for _, ref := range *al.Referrers() {
+				if st, ok := ref.(*ssa.Store); ok && st.Addr == al {
+					out = append(out, errorSources(st.Val, blk, depth+1)...)
+				}
+			}
+			return out
+		}
+		return []string{"unknown"}
+	case *ssa.MakeInterface:
+		return []string{"constructed-here"}
+	case *ssa.ChangeInterface:
+		return errorSources(x.X, blk, depth+1)
+	case *ssa.Phi:
+		var out []string
+		for _, e := range x.Edges {
+			out = append(out, errorSources(e, blk, depth+1)...)
+		}
+		return out
+	}
+	return []string{"unknown"}
+}
+
+// wrappedSources follows the variadic arguments of a wrapping call down to the error values in it.
+func wrappedSources(v ssa.Value, blk *ssa.BasicBlock, depth int) []string {
+	if depth > 8 {
+		return nil
+	}
+	switch x := v.(type) {
+	case *ssa.Slice:
+		return wrappedSources(x.X, blk, depth+1)
+	case *ssa.Alloc:
+		var out []string
+		for _, ref := range *x.Referrers() {
+			if ia, ok := ref.(*ssa.IndexAddr); ok {
+				for _, r2 := range *ia.Referrers() {
+					if st, ok := r2.(*ssa.Store); ok {
+						out = append(out, wrappedSources(st.Val, blk, depth+1)...)
+					}
+				}
+			}
+		}
+		return out
+	case *ssa.MakeInterface:
+		if types.TypeString(x.X.Type(), nil) == "error" {
+			return errorSources(x.X, blk, depth+1)
+		}
+		return nil
+	case *ssa.ChangeInterface:
+		if types.TypeString(x.X.Type(), nil) == "error" {
+			return errorSources(x.X, blk, depth+1)
+		}
+	}
+	return nil
 }
